@@ -50,7 +50,7 @@ def run(c, props):
     rej = tr.tagged.get("REJECT")
     if rej:
         line = rej[0]["line"]; clauses = rej[0].get("clauses", [])
-        evs = open(ev).read().splitlines()
+        evs = open(ev).read().split("\n")
         e = json.loads(evs[line - 1]) if line - 1 < len(evs) else {}
         owner = {"Returns": "C01", "SpansValid": "C12", "ErrorHasDiag": "C12", "Lossless": "C02", "TreeIffLexClean": "C11"}
         if any(owner.get(x) in props for x in clauses):
